@@ -37,6 +37,20 @@ struct SpecObs {
     slots: Vec<Vec<u32>>,
     syms: Vec<usize>,
     cost: Vec<Vec<u64>>,
+    /// expected e-matching results (spec/EMatch.tla): per pattern the orbit-least ground matches
+    #[serde(default)]
+    mt: Vec<Vec<[usize; 3]>>,
+    #[serde(default = "yes")]
+    nored: bool,
+}
+fn yes() -> bool { true }
+
+#[derive(Deserialize, Clone)]
+struct PatSpec {
+    text: String,
+    free: Vec<u32>,
+    bound: Vec<u32>,
+    vars: Vec<String>,
 }
 
 /// the two analyses the paths are run with
@@ -71,7 +85,11 @@ const PATTERNS: [&str; 25] = [
     "(h ?a (v {1}))", "(h (v {1}) ?a)", "(h ?a (p {1} {2}))", "(h (v {1}) (v {2}))", "(h (p {1} {2}) (p {2} {1}))",
     "(lam {1} (h ?a (v {1})))", "(h (p {1} {2}) (v {1}))",
 ];
-const MULTIPATTERNS: [&str; 14] = [
+const MULTIPATTERNS: [&str; 20] = [
+    // a single atom with a binder / a variable bound right after an earlier child of the same node was unified:
+    // the binding must use the pattern's slot names, not the e-node's stale ones (defect D16)
+    "?x == (lam {1} ?a)", "?p == (g ?a), ?q == (h ?a ?b)", "?p == (v {1}), ?q == (h ?p ?b)", "?x == (k ?a {1} ?b)",
+    "?x == (sum ?a {1} {2} ?b)", "?x == (let {1} ?a ?b)",
     // variables bound by different earlier atoms, related later, then forced onto one slot
     "?p == (h ?a ?c), ?q == (h ?d ?b), ?r == (h ?a ?b), ?a == (v {1}), ?b == (v {1})",
     "?p == (h ?a ?c), ?q == (h ?d ?b), ?r == (h ?a ?b), ?a == (v {1}), ?b == (v {2})",
@@ -95,6 +113,8 @@ fn concrete(text: &str, nm: &Naming) -> String {
 struct Table {
     us: Vec<Term>,
     states: Vec<SpecObs>,
+    #[serde(default)]
+    patterns: Vec<PatSpec>,
 }
 
 #[derive(Serialize, Clone)]
@@ -118,6 +138,10 @@ struct Ctx {
     us_index: HashMap<Term, usize>,
     pool_ui: Vec<usize>, // pool term -> universe index
     states: HashMap<Vec<usize>, SpecObs>,
+    patterns: Vec<PatSpec>,
+    /// all bijections of the name pool, and per bijection the universe index of every renamed universe term
+    bijs: Vec<Vec<u32>>,
+    ren_idx: Vec<Vec<usize>>,
 }
 
 #[derive(Default)]
@@ -130,6 +154,9 @@ struct Stats {
     extractions: usize,
     data: usize,
     matches: usize,
+    match_sets: usize,
+    match_tuples: usize,
+    ungroundable: usize,
 }
 
 #[derive(Clone, PartialEq, Eq, Debug)]
@@ -152,6 +179,8 @@ struct PathRun<'a> {
     /// terms are converted (and the lazy slot name parsed) only when they are used
     lazy: bool,
     mode: &'a str,
+    /// compare the complete match sets with the specification's (first path of a state/naming only)
+    full_match: bool,
     findings: Vec<Finding>,
     stats: Stats,
 }
@@ -295,30 +324,6 @@ impl<'a> PathRun<'a> {
             handles.push((ctx.pool_ui[a - 1], ia));
             handles.push((ctx.pool_ui[b - 1], ib));
 
-            // built-in consistency check + public-API consistency (C08)
-            if let Err(p) = guard(|| eg.check()) {
-                // the e-graph is still usable: go on, so that the other properties are judged too
-                self.stats.panics += 1;
-                self.finding("C08", "EGraph::check() fails", &key, path, step + 1, &site_key(&p), json!({"msg": p.msg}));
-            }
-            match guard(|| dump_consistent(&eg)) {
-                Ok(Ok(())) => {}
-                Ok(Err(s)) => {
-                    if s.starts_with("INVOCATION") {
-                        // the node is in its class, but under different arguments: the class is
-                        // equal to a permuted/renamed invocation of itself and does not know it
-                        self.finding("C02", "e-node of a class looks up to a different invocation of that class", &key, path, step + 1, "", json!({"msg": s}));
-                    } else {
-                        self.finding("C08", "inconsistent structure", &key, path, step + 1, "", json!({"msg": s}));
-                    }
-                }
-                Err(p) => {
-                    self.stats.panics += 1;
-                    self.finding("C08", "panic while reading the e-graph", &key, path, step + 1, &site_key(&p), json!({"msg": p.msg}));
-                    return None;
-                }
-            }
-
             let us_exprs_owned: Vec<RecExpr<T>>;
             let us_exprs: &[RecExpr<T>] = if self.lazy {
                 us_exprs_owned = self.ctx.us.iter().map(|t| to_recexpr::<T>(t, self.nm).unwrap()).collect();
@@ -341,12 +346,16 @@ impl<'a> PathRun<'a> {
                     json!({"before": prev_progress, "after": obs.progress}));
             }
             prev_progress = obs.progress;
-            for (ui, h) in &handles {
+            for (hi, (ui, h)) in handles.iter().enumerate() {
+                // the first query after a change is the interesting one (later ones may find a compressed path):
+                // half of the handles are compared first, the other half canonicalised first
+                let eq_first = (hi + self.stats.paths) % 2 == 0;
                 let r = guard(|| {
+                    let cur = obs.found[*ui].clone();
+                    let same0 = if eq_first { cur.as_ref().map(|c| if hi % 4 < 2 { eg.eq(c, h) } else { eg.eq(h, c) }) } else { None };
                     let f = eg.find_applied_id(h);
                     let ff = eg.find_applied_id(&f);
-                    let cur = obs.found[*ui].clone();
-                    let same = cur.as_ref().map(|c| eg.eq(c, h));
+                    let same = if eq_first { same0 } else { cur.as_ref().map(|c| eg.eq(c, h)) };
                     (f.clone(), ff == f, same, f.slots().is_subset(&h.slots()))
                 });
                 match r {
@@ -372,6 +381,32 @@ impl<'a> PathRun<'a> {
                     }
                 }
             }
+            // built-in consistency check + public-API consistency (C08).  Deliberately AFTER the old handles were
+            // probed: check() walks the whole union-find and compresses every path, which would repair a stale entry
+            // before anybody looks at it.
+            if let Err(p) = guard(|| eg.check()) {
+                // the e-graph is still usable: go on, so that the other properties are judged too
+                self.stats.panics += 1;
+                self.finding("C08", "EGraph::check() fails", &key, path, step + 1, &site_key(&p), json!({"msg": p.msg}));
+            }
+            match guard(|| dump_consistent(&eg)) {
+                Ok(Ok(())) => {}
+                Ok(Err(s)) => {
+                    if s.starts_with("INVOCATION") {
+                        // the node is in its class, but under different arguments: the class is
+                        // equal to a permuted/renamed invocation of itself and does not know it
+                        self.finding("C02", "e-node of a class looks up to a different invocation of that class", &key, path, step + 1, "", json!({"msg": s}));
+                    } else {
+                        self.finding("C08", "inconsistent structure", &key, path, step + 1, "", json!({"msg": s}));
+                    }
+                }
+                Err(p) => {
+                    self.stats.panics += 1;
+                    self.finding("C08", "panic while reading the e-graph", &key, path, step + 1, &site_key(&p), json!({"msg": p.msg}));
+                    return None;
+                }
+            }
+
             if let Some(po) = &prev_obs {
                 // equal before => equal now (on the OLD invocations)
                 let mut last: HashMap<usize, usize> = HashMap::new();
@@ -410,6 +445,9 @@ impl<'a> PathRun<'a> {
             if is_final {
                 final_fp = Some(self.fingerprint(&obs, &eg));
                 self.check_matching(spec, &obs, &eg, &key, path, step + 1);
+                if self.full_match && !spec.mt.is_empty() {
+                    self.check_match_sets(spec, &obs, &eg, &key, path, step + 1);
+                }
                 self.check_extraction(spec, &obs, &eg, &key, path, step + 1);
                 self.check_old_handles_extract(&eg, &handles, &key, path, step + 1);
                 self.readd(spec, &obs, &mut eg, &key, path, step + 1);
@@ -791,6 +829,102 @@ impl<'a> PathRun<'a> {
         }
     }
 
+
+    /// C04 / C05 against spec/EMatch.tla: the complete set of substitutions `ematch_all` returns,
+    /// grounded in the name pool and reduced to orbit-least form, equals the specification's set.
+    fn check_match_sets<N: AnKind>(&mut self, spec: &SpecObs, obs: &ImplObs, eg: &EGraph<T, N>, key: &[usize], path: &[(usize, bool)], step: usize) {
+        let ctx = self.ctx;
+        let n_pool = ctx.uni.n;
+        // universe terms by the (canonical) class id of their invocation
+        let mut by_id: HashMap<Id, Vec<usize>> = HashMap::new();
+        for (i, f) in obs.found.iter().enumerate() {
+            if let Some(a) = f { by_id.entry(eg.find_applied_id(a).id).or_default().push(i); }
+        }
+        let uses_all_names = |t: &[usize; 3]| t.iter().any(|l| *l != 0 && ctx.us[*l - 1].fv().len() as u32 == n_pool);
+        for (q, ps) in ctx.patterns.iter().enumerate() {
+            if q >= spec.mt.len() { break; }
+            let txt = concrete(&ps.text, self.nm);
+            let pat = Pattern::<T>::parse(&txt).expect("pattern pool must parse");
+            let substs = match guard(|| ematch_all(eg, &pat)) {
+                Ok(s) => s,
+                Err(p) => { self.stats.panics += 1; self.finding("C05", "ematch_all panics", key, path, step, &site_key(&p), json!({"msg": p.msg, "pattern": ps.text})); return; }
+            };
+            self.stats.match_sets += 1;
+            let fix: Vec<usize> = (0..ctx.bijs.len()).filter(|b| ps.free.iter().all(|x| ctx.bijs[*b][*x as usize - 1] == *x)).collect();
+            let canon = |t: [usize; 3]| -> [usize; 3] {
+                let mut best = t;
+                for b in &fix {
+                    let mut u = [0usize; 3];
+                    for k in 0..3 { if t[k] != 0 { u[k] = spec.lab[ctx.ren_idx[*b][t[k] - 1]]; } }
+                    if u < best { best = u; }
+                }
+                best
+            };
+            let mut got: BTreeSet<[usize; 3]> = BTreeSet::new();
+            let mut anomalies = 0;
+            let ungroundable_before = self.stats.ungroundable;
+            'subst: for sb in &substs {
+                if ps.vars.iter().any(|v| !sb.contains_key(&v[1..])) { continue; } // reported by check_matching
+                // ground the slots of the substitution: free pattern slots keep their names, the
+                // others (bound pattern slots, uncovered slots) get the remaining names injectively
+                let mut slots: BTreeSet<Slot> = BTreeSet::new();
+                for v in &ps.vars { slots.extend(sb[&v[1..]].slots().iter().copied()); }
+                // the specification's ground instances also name every bound pattern slot (distinct from everything else)
+                for k in &ps.bound { slots.insert(self.nm.slot(*k)); }
+                let mut gamma: Vec<(Slot, Slot)> = Vec::new();
+                let mut rest: Vec<u32> = (1..=n_pool).filter(|x| !ps.free.contains(x)).collect();
+                for s in &slots {
+                    match self.nm.name(*s) {
+                        Some(k) if ps.free.contains(&k) => gamma.push((*s, *s)),
+                        _ => {
+                            if rest.is_empty() { self.stats.ungroundable += 1; continue 'subst; }
+                            gamma.push((*s, self.nm.slot(rest.remove(0))));
+                        }
+                    }
+                }
+                let gm: SlotMap = gamma.into_iter().collect();
+                let mut t = [0usize; 3];
+                for v in &ps.vars {
+                    let k = match v.as_str() { "?a" => 0, "?b" => 1, _ => 2 };
+                    let a = sb[&v[1..]].clone();
+                    let r = guard(|| {
+                        let m: SlotMap = a.slots().iter().map(|s| (*s, gm[*s])).collect();
+                        let ag = a.apply_slotmap(&m);
+                        let id = eg.find_applied_id(&ag).id;
+                        by_id.get(&id).and_then(|c| c.iter().find(|i| eg.eq(obs.found[**i].as_ref().unwrap(), &ag)).copied())
+                    });
+                    match r {
+                        Ok(Some(i)) if spec.lab[i] != 0 => t[k] = spec.lab[i],
+                        Ok(Some(_)) => { anomalies += 1; continue 'subst; }  // the implementation represents a term the specification does not: C01/C09 report that
+                        Ok(None) => {
+                            self.finding("C05", "a match binds a variable to an invocation that denotes no term of the universe", key, path, step, "",
+                                json!({"pattern": ps.text, "var": v, "value": format!("{a:?}")}));
+                            return;
+                        }
+                        Err(p) => { self.stats.panics += 1; self.finding("C05", "panic while grounding a match", key, path, step, &site_key(&p), json!({"msg": p.msg, "pattern": ps.text})); return; }
+                    }
+                }
+                if uses_all_names(&t) { continue; }
+                got.insert(canon(t));
+                self.stats.match_tuples += 1;
+            }
+            let want: BTreeSet<[usize; 3]> = spec.mt[q].iter().copied().filter(|t| !uses_all_names(t)).collect();
+            let show = |t: &[usize; 3]| -> Vec<String> { t.iter().map(|l| if *l == 0 { "-".to_string() } else { ctx.us[*l - 1].show() }).collect() };
+            if let Some(t) = got.difference(&want).next() {
+                self.finding("C05", "ematch_all reports a match that is not an instance of the pattern in the congruence", key, path, step, "",
+                    json!({"pattern": ps.text, "bindings": show(t), "reported": got.len(), "expected": want.len()}));
+                return;
+            }
+            if spec.nored && anomalies == 0 && self.stats.ungroundable == ungroundable_before {
+                if let Some(t) = want.difference(&got).next() {
+                    self.finding("C04", "a represented instance of the pattern is not matched", key, path, step, "",
+                        json!({"pattern": ps.text, "bindings": show(t), "reported": got.len(), "expected": want.len()}));
+                    return;
+                }
+            }
+        }
+    }
+
     fn readd<N: AnKind>(
         &mut self,
         spec: &SpecObs,
@@ -898,7 +1032,14 @@ fn main() {
         k.sort();
         k
     };
-    let ctx = Arc::new(Ctx { uni, us: table.us.clone(), us_index, pool_ui, states });
+    // bijections of the name pool and their action on the universe (orbit-least form of matches)
+    let bijs: Vec<Vec<u32>> = if table.patterns.is_empty() { Vec::new() } else {
+        perms(uni.n as usize).into_iter().map(|p| p.into_iter().map(|x| x as u32 + 1).collect()).collect()
+    };
+    let ren_idx: Vec<Vec<usize>> = bijs.iter().map(|b| table.us.iter().map(|t| {
+        *us_index.get(&t.ren(&|x| b[x as usize - 1])).expect("universe not closed under bijections")
+    }).collect()).collect();
+    let ctx = Arc::new(Ctx { uni, us: table.us.clone(), us_index, pool_ui, states, patterns: table.patterns.clone(), bijs, ren_idx });
     let next = Arc::new(AtomicUsize::new(0));
     let findings: Arc<Mutex<Vec<Finding>>> = Arc::new(Mutex::new(Vec::new()));
     let totals: Arc<Mutex<(Stats, usize, usize)>> = Arc::new(Mutex::new((Stats::default(), 0, 0)));
@@ -957,7 +1098,7 @@ fn main() {
                                 // when the first term that mentions it is inserted
                                 let lazy = kind == "fresh-lazy";
                                 let nm_path = if lazy { Naming::new(&kind, ctx2.uni.n) } else { nm.clone() };
-                                let mut pr = PathRun { ctx: &ctx2, nm: &nm_path, us_exprs: &us_exprs, pool_exprs: &pool_exprs, lazy, mode, findings: Vec::new(), stats: Stats::default() };
+                                let mut pr = PathRun { ctx: &ctx2, nm: &nm_path, us_exprs: &us_exprs, pool_exprs: &pool_exprs, lazy, mode, full_match: count == 1, findings: Vec::new(), stats: Stats::default() };
                                 let fp = if count % 2 == 0 { pr.run::<()>(&path) } else { pr.run::<SizeDepth>(&path) };
                                 stats.paths += pr.stats.paths;
                                 stats.steps += pr.stats.steps;
@@ -967,6 +1108,9 @@ fn main() {
                                 stats.extractions += pr.stats.extractions;
                                 stats.data += pr.stats.data;
                                 stats.matches += pr.stats.matches;
+                                stats.match_sets += pr.stats.match_sets;
+                                stats.ungroundable += pr.stats.ungroundable;
+                                stats.match_tuples += pr.stats.match_tuples;
                                 out_f.extend(pr.findings);
                                 if let Some(fp) = fp {
                                     out_fp.push((kind.clone(), mode.to_string(), path, fp));
@@ -987,6 +1131,9 @@ fn main() {
                 job_stats.extractions += st.extractions;
                 job_stats.data += st.data;
                 job_stats.matches += st.matches;
+                job_stats.match_sets += st.match_sets;
+                job_stats.ungroundable += st.ungroundable;
+                job_stats.match_tuples += st.match_tuples;
             }
             // C12 / C11: every linearisation and every naming of one state give one observation
             let mut c12 = 0;
@@ -1027,6 +1174,9 @@ fn main() {
             t.0.extractions += job_stats.extractions;
             t.0.data += job_stats.data;
             t.0.matches += job_stats.matches;
+            t.0.match_sets += job_stats.match_sets;
+            t.0.ungroundable += job_stats.ungroundable;
+            t.0.match_tuples += job_stats.match_tuples;
             t.1 += 1;
             t.2 += fps.len();
         }));
@@ -1042,7 +1192,7 @@ fn main() {
     println!(
         "{}",
         json!({"kind":"summary","universe": ctx.uni.name, "states": t.1, "paths": t.0.paths, "steps": t.0.steps,
-               "panics": t.0.panics, "comparisons": t.0.comparisons, "readds": t.0.readds, "extractions": t.0.extractions, "analysis_data_checked": t.0.data, "matches_checked": t.0.matches,
+               "panics": t.0.panics, "comparisons": t.0.comparisons, "readds": t.0.readds, "extractions": t.0.extractions, "analysis_data_checked": t.0.data, "matches_checked": t.0.matches, "match_sets_compared": t.0.match_sets, "ground_matches_compared": t.0.match_tuples, "matches_not_groundable_in_pool": t.0.ungroundable,
                "completed_paths": t.2, "findings": f.len(), "universe_terms": ctx.us.len()})
     );
 }
